@@ -13,7 +13,7 @@ VERIF = os.path.dirname(os.path.dirname(os.path.abspath(__file__)))
 SYMARK = os.path.join(VERIF, "symark", "target", "release", "symark")
 TD = os.path.join(VERIF, "mir", "target")
 REPO = os.environ.get("VERIF_REPO", "/repo")
-FQ = r"Fp<ark_ff::MontBackend<(?:curve::zorro::)?fq::FqConfig, 4>, 4>"
+FQ = r"Fp<(?:[\w]+::)*MontBackend<(?:[\w]+::)*FqConfig, 4>, 4>"
 
 
 def sh(cmd, **kw):
